@@ -5,11 +5,12 @@ from .common import TRUSTED, Ctx
 
 def check(rep):
     ctx = Ctx(rep)
+    # first the rules that read the sources directly (they do not need the lexer / parser models)
+    ER.rule_sly_runtime_instance_only(ctx)
+    ER.rule_no_process_globals(ctx)
     ER.rule_fresh_per_parse(ctx)
     ER.rule_no_shared_state(ctx)
     ER.rule_mutable_defaults(ctx)
-    ER.rule_no_process_globals(ctx)
-    ER.rule_sly_runtime_instance_only(ctx)
     ER.rule_call_forwards(ctx, rid="C17.CALL-READS-ONE", publish=True, aspects=("result",))
     ER.rule_commit_order(ctx, rid="C17.PUBLISH-AFTER-BUILD")
     ER.rule_instance_only(ctx, rid="C17.INSTANCE-ONLY")
